@@ -285,13 +285,71 @@ BACKENDS: Dict[str, Dict[str, str]] = {
 TYPED_METHODS = {"nI": "int", "xF": "float"}  # declared to the translator through MetaData
 DOUBLE_METHODS = ["pt", "eta", "phi"]  # undeclared methods default to double
 
+# other sources of include files a query can use together with a math function
+def _phi_mpi_pi(x: float) -> float:
+    while x >= math.pi:
+        x -= 2 * math.pi
+    while x < -math.pi:
+        x += 2 * math.pi
+    return x
+
+
+def _user_fn(name: str, incs: List[str], code: str) -> Dict[str, Any]:
+    return {"metadata_type": "add_cpp_function", "name": name, "include_files": incs, "arguments": ["c12_x"], "code": [code], "return_type": "double"}
+
+
+COMPANIONS: Dict[str, Dict[str, Any]] = {
+    # built-in injected functions
+    "DeltaR": {"backends": ["atlas", "cms_aod", "cms_miniaod"], "md": [], "incs": ["TVector2.h", "math.h"], "type": "double",
+               "plain": "DeltaR(j.eta(), j.phi(), 0.0, 0.0)", "wrap": lambda x: f"DeltaR({x}, j.phi(), 0.0, 0.0)",
+               "value": lambda x, s: math.sqrt((s[1] if x is None else x) ** 2 + _phi_mpi_pi(s[2]) ** 2)},
+    "getAttributeFloat": {"backends": ["atlas"], "md": [], "incs": ["vector"], "type": "float",
+                          "plain": "j.getAttributeFloat('emf')", "wrap": None, "value": lambda x, s: 0.25},
+    # user C++ functions (add_cpp_function) whose include_files are C spellings / the C++ spelling / unrelated headers / empty
+    "user-function-math.h": {"backends": ["atlas", "cms_aod", "cms_miniaod"], "md": [_user_fn("c12_c", ["math.h"], "double result = fabs(c12_x) + 1.0;")],
+                             "incs": ["math.h"], "type": "double", "plain": "c12_c(j.eta())", "wrap": lambda x: f"c12_c({x})",
+                             "value": lambda x, s: abs(s[1] if x is None else x) + 1.0},
+    "user-function-stdlib.h-math.h": {"backends": ["atlas", "cms_aod", "cms_miniaod"], "md": [_user_fn("c12_cc", ["stdlib.h", "math.h"], "double result = fabs(c12_x) + 1.0;")],
+                                      "incs": ["stdlib.h", "math.h"], "type": "double", "plain": "c12_cc(j.eta())", "wrap": lambda x: f"c12_cc({x})",
+                                      "value": lambda x, s: abs(s[1] if x is None else x) + 1.0},
+    "user-function-cmath": {"backends": ["atlas", "cms_aod", "cms_miniaod"], "md": [_user_fn("c12_cpp", ["cmath"], "double result = std::fabs(c12_x) + 1.0;")],
+                            "incs": ["cmath"], "type": "double", "plain": "c12_cpp(j.eta())", "wrap": lambda x: f"c12_cpp({x})",
+                            "value": lambda x, s: abs(s[1] if x is None else x) + 1.0},
+    "user-function-unrelated-headers": {"backends": ["atlas", "cms_aod", "cms_miniaod"], "md": [_user_fn("c12_other", ["vector", "map"], "double result = (c12_x) * 2.0 + 1.0;")],
+                                        "incs": ["vector", "map"], "type": "double", "plain": "c12_other(j.eta())", "wrap": lambda x: f"c12_other({x})",
+                                        "value": lambda x, s: (s[1] if x is None else x) * 2.0 + 1.0},
+    "user-function-no-headers": {"backends": ["atlas", "cms_aod", "cms_miniaod"], "md": [_user_fn("c12_none", [], "double result = (c12_x) * 2.0 + 1.0;")],
+                                 "incs": [], "type": "double", "plain": "c12_none(j.eta())", "wrap": lambda x: f"c12_none({x})",
+                                 "value": lambda x, s: (s[1] if x is None else x) * 2.0 + 1.0},
+    # a user-declared event collection whose include_files list the C header (used at event level beside the function's column)
+    "collection-math.h": {"backends": ["atlas", "cms_aod", "cms_miniaod"], "collection": True, "incs": ["math.h", "vector"], "type": "double",
+                          "plain": None, "wrap": None, "value": None},
+}
+COLLECTION_MD = {
+    "atlas": {"metadata_type": "add_atlas_event_collection_info", "name": "C12Things", "include_files": ["math.h", "vector"],
+              "container_type": "xAOD::JetContainer", "element_type": "xAOD::Jet", "contains_collection": True},
+    "cms_aod": {"metadata_type": "add_cms_aod_event_collection_info", "name": "C12Things", "include_files": ["math.h", "vector"],
+                "container_type": "reco::MuonCollection", "element_type": "reco::Muon", "contains_collection": True},
+    "cms_miniaod": {"metadata_type": "add_cms_miniaod_event_collection_info", "name": "C12Things", "include_files": ["math.h", "vector"],
+                    "container_type": "pat::MuonCollection", "element_type": "pat::Muon", "contains_collection": True},
+}
+# how the function F (on the loop variable j) and the companion C are put together: shape -> (query body, include requests of C come
+# before F's own?, row expressions); the companion's own requests are made before its arguments are translated (process_ast_node),
+# the function's after its arguments (visit_function_ast)
+COMPANION_SHAPES = ["tuple-function-first", "tuple-companion-first", "product-function-first", "product-companion-first",
+                    "function-of-companion", "companion-of-function"]
+COLLECTION_SHAPES = ["collection-first", "collection-second"]
+
+
 # abstract expressions (python side):  ("m", name) | ("i", n) | ("f", x) | ("s", text) | ("call", f, [args]) | ("bin", op, l, r) | ("un", op, e)
 # event-level operands (their evaluation emits statements and moves the translator's cursor; `COLL` is the backend's collection):
 #   ("fm", name)  COLL.First().name()                       -- stays inside the loop and the guard of the First()
 #   ("sf", name)  COLL.Select(lambda k: k.name()).First()   -- the same, the method inside the Select
 #   ("cnt",)      COLL.Count()                              -- a loop opened and closed again, the value is the accumulator (int)
 #   ("sum", name) COLL.Select(lambda k: k.name()).Sum()     -- the same (double)
-LEAF_KINDS = ("m", "i", "f", "s", "fm", "sf", "cnt", "sum")
+#   ("comp", name)      the value of another source of include files used in the same query (COMPANIONS), on the loop variable
+#   ("compw", name, X)  that companion applied to the expression X (only in the row expressions the job oracle predicts)
+LEAF_KINDS = ("m", "i", "f", "s", "fm", "sf", "cnt", "sum", "comp")
 EVENT_LEAF_KINDS = ("fm", "sf", "cnt", "sum")
 PY_BIN = {"Add": "+", "Sub": "-", "Mult": "*", "Div": "/", "Mod": "%", "Pow": "**", "MatMult": "@"}
 PY_UN = {"USub": "-", "UAdd": "+", "Not": "not ", "Invert": "~"}
@@ -315,6 +373,10 @@ def to_src(e) -> str:
         return "COLL.Count()"
     if k == "sum":
         return f"COLL.Select(lambda k: k.{e[1]}()).Sum()"
+    if k == "comp":
+        return COMPANIONS[e[1]]["plain"]
+    if k == "compw":
+        return COMPANIONS[e[1]]["wrap"](to_src(e[2]))
     if k == "call":
         return f"{e[1]}({', '.join(to_src(a) for a in e[2])})"
     if k == "bin":
@@ -340,6 +402,8 @@ def leaf_cpp(e, sep: str) -> Tuple[str, str]:
         return ("aggResult", "int")
     if k == "sum":
         return ("aggResult", "double")
+    if k == "comp":  # the result variable of the companion's code block
+        return ("c12comp", COMPANIONS[e[1]]["type"])
     raise ValueError(e)
 
 
@@ -382,7 +446,7 @@ def called(e) -> List[str]:
         return [e[1]] + [n for a in e[2] for n in called(a)]
     if e[0] == "bin":
         return called(e[2]) + called(e[3])
-    if e[0] == "un":
+    if e[0] in ("un", "compw"):
         return called(e[2])
     return []
 
@@ -394,6 +458,10 @@ def ops_of(e) -> List[str]:
         return [e[1]] + ops_of(e[2]) + ops_of(e[3])
     if e[0] == "un":
         return [e[1]] + ops_of(e[2])
+    if e[0] == "compw":
+        return ["companion"] + ops_of(e[2])
+    if e[0] == "comp":
+        return ["companion"]
     return []
 
 
@@ -402,7 +470,7 @@ def size(e) -> int:
         return 1 + sum(size(a) for a in e[2])
     if e[0] == "bin":
         return 1 + size(e[2]) + size(e[3])
-    if e[0] == "un":
+    if e[0] in ("un", "compw"):
         return 1 + size(e[2])
     return 1
 
@@ -676,6 +744,10 @@ def py_eval(e, s: Tuple[float, float, float], jitter: float = 0.0, ev: Any = Non
         return {"pt": s[0], "eta": s[1], "phi": s[2], "nI": N_I, "xF": X_F}[e[1]]
     if k in ("i", "f", "s"):
         return e[1]
+    if k == "comp":
+        return COMPANIONS[e[1]]["value"](None, s)
+    if k == "compw":
+        return COMPANIONS[e[1]]["value"](py_eval(e[2], s, jitter, ev), s)
     if k in EVENT_LEAF_KINDS:  # `ev`: the jets (pt, eta, phi) of the event
         if not ev:
             raise Skip()
@@ -1237,6 +1309,8 @@ INJECT_VARIANTS: Dict[str, List[Dict[str, Any]]] = {
     "header-lists-cmath": [{"name": "c12_helpers", "header_includes": ["vector", "cmath"], "private_members": ["double m_scale = std::sqrt(2.0);"]}],
     "both-list-cmath": [{"name": "c12_helpers", "header_includes": ["cmath"], "body_includes": ["cmath", "algorithm"]}],
     "neither-lists-cmath": [{"name": "c12_a", "header_includes": ["vector"]}, {"name": "c12_b", "body_includes": ["map"]}],
+    "body-lists-math.h": [{"name": "c12_helpers", "body_includes": ["math.h", "vector"]}],
+    "header-lists-math.h": [{"name": "c12_helpers", "header_includes": ["math.h"], "body_includes": ["stdlib.h"]}],
     "two-blocks": [{"name": "c12_a", "header_includes": ["cmath"]}, {"name": "c12_b", "header_includes": ["string"], "body_includes": ["cmath"]}],
 }
 
@@ -1248,7 +1322,7 @@ def _pkg_job(job) -> Dict[str, Any]:
 
 def package_cases(ctx, g) -> List[Tuple[str, str, Any]]:
     """(backend, inject variant, expr); corpus cases with an `inject` key first"""
-    pre = [(c["backend"], c["inject"], _tuplify(c["expr"])) for c in vlib.corpus_cases(ID) if c.get("inject") in INJECT_VARIANTS]
+    pre = [(c["backend"], c["inject"], _tuplify(c["expr"])) for c in vlib.corpus_cases(ID) if c.get("inject") in INJECT_VARIANTS and "companion" not in c]
     return pre + _package_cases(ctx, g)
 
 
@@ -1342,6 +1416,245 @@ def check_package(ctx, g) -> None:
         for of in r["obs"]["package"]:
             if of["calls"] and of["name"] not in {mf["name"] for mf in r["model"]["files"]}:
                 ctx.disagreement("package: a rendered file the model does not know calls a math function", {"backend": r["backend"], "src": r["src"]}, None, of["name"])
+
+
+# --------------------------------------------------------------------------------------------
+# the function used TOGETHER with the other sources of include files a query has
+# --------------------------------------------------------------------------------------------
+
+COMPANION_INJECTS = ["none", "none", "none", "body-lists-math.h", "header-lists-math.h", "neither-lists-cmath", "body-lists-cmath"]
+
+
+def companion_query(backend: str, comp: str, shape: str, e, inject: str = "none") -> Tuple[str, Any]:
+    """(query text, F as the model sees it)"""
+    b = BACKENDS[backend]
+    C = COMPANIONS[comp]
+    mds: List[Dict[str, Any]] = [dict(md, metadata_type="inject_code") for md in INJECT_VARIANTS[inject]]
+    mds += [{"metadata_type": "add_method_type_info", "type_string": b["elem"], "method_name": m, "return_type": ty} for m, ty in TYPED_METHODS.items()]
+    mds += list(C.get("md", []))
+    if C.get("collection"):
+        mds.append(COLLECTION_MD[backend])
+    ds = "EventDataset()"
+    for m in mds:
+        ds = f"MetaData({ds}, {m!r})"
+    F = to_src(e)
+    if shape in COLLECTION_SHAPES:
+        things, col = "e.C12Things('c12').Select(lambda t: t.pt())", f"{b['coll']}.Select(lambda j: {F})"
+        body = f"({things}, {col})" if shape == "collection-first" else f"({col}, {things})"
+        return f"Select({ds}, lambda e: {body})", e
+    if shape == "tuple-function-first":
+        body = f"({F}, {C['plain']})"
+    elif shape == "tuple-companion-first":
+        body = f"({C['plain']}, {F})"
+    elif shape == "product-function-first":
+        body = f"{F} * {C['plain']}"
+    elif shape == "product-companion-first":
+        body = f"{C['plain']} * {F}"
+    elif shape == "function-of-companion":
+        body = F  # (e holds the ("comp", name) operand)
+    elif shape == "companion-of-function":
+        body = C["wrap"](F)
+    else:
+        raise ValueError(shape)
+    return f"Select(SelectMany({ds}, lambda e: {b['coll']}), lambda j: {body})", e
+
+
+def companion_expr(f: str, comp: str, shape: str):
+    e = call_of(f)
+    if shape == "function-of-companion":
+        args = list(e[2])
+        k = next((i for i, a in enumerate(args) if a[0] == "m"), None)
+        if k is None:
+            return None
+        args[k] = ("comp", comp)
+        e = ("call", f, args)
+    return e
+
+
+def companion_rows(shape: str, comp: str, e) -> Any:
+    """(row per, column expressions) for the job oracle"""
+    if shape in COLLECTION_SHAPES:
+        return ("event", ["vecpt", "vecF"] if shape == "collection-first" else ["vecF", "vecpt"])
+    C = ("comp", comp)
+    return ("jet", {"tuple-function-first": [e, C], "tuple-companion-first": [C, e], "product-function-first": [("bin", "Mult", e, C)],
+                    "product-companion-first": [("bin", "Mult", C, e)], "function-of-companion": [e], "companion-of-function": [("compw", comp, e)]}[shape])
+
+
+def companion_requests(shape: str, comp: str) -> Tuple[List[str], List[str]]:
+    """the include requests the companion makes before / after the function's own (see COMPANION_SHAPES)"""
+    incs = list(COMPANIONS[comp]["incs"])
+    before = shape in ("tuple-companion-first", "product-companion-first", "function-of-companion", "companion-of-function", "collection-first")
+    return (incs, []) if before else ([], incs)
+
+
+def _companion_job(job) -> Dict[str, Any]:
+    import logging
+
+    backend, comp, shape, e, inject = job
+    logging.disable(logging.CRITICAL)
+    b = BACKENDS[backend]
+    d = Path(tempfile.mkdtemp(prefix="c12_"))
+    try:
+        a = ast.parse(companion_query(backend, comp, shape, e, inject)[0], mode="eval").body
+        exe = _executor(backend)
+        info = exe.write_cpp_files(exe.apply_ast_transformations(a), d)
+        files = {f: (d / f).read_text() for f in info.all_filenames if (d / f).is_file() and f.endswith(CPP_SUFFIXES)}
+        main = files[b["main"]]
+    except Exception as ex:
+        return {"err": type(ex).__name__, "msg": str(ex)[:200]}
+    finally:
+        shutil.rmtree(d, ignore_errors=True)
+        logging.disable(logging.NOTSET)
+    base = _BASELINE_PKG[backend]
+    pkg = package_of(files)
+    seen = {f["name"]: f for f in pkg}
+    # what this translation added to the main file, in the order of the rendered #include lines; and what the main file sees
+    # through the rendered header it includes (ATLAS: query.h)
+    added = [i for i in seen[b["main"]]["incs"] if i not in base.get(b["main"], [])]
+    through = [i for h in seen[b["main"]]["incs"] if h in seen and h != b["main"] for i in seen[h]["incs"] if i not in base.get(h, [])]
+    return {"package": pkg, "added": added, "through_header": through, "body": method_body(backend, main), "members": class_members(backend, files),
+            "math_calls": sorted(set(m.group(1) for m in (_CALL_RE.finditer(main) if _CALL_RE else [])))}
+
+
+def companion_cases(ctx, g) -> List[Tuple[str, str, str, Any, str]]:
+    names = [n for n in g["readme"] if n in REF and n != "remquo"]
+    out: List[Tuple[str, str, str, Any, str]] = []
+    k = 0
+    combos = [(c, s) for c in COMPANIONS for s in (COLLECTION_SHAPES if COMPANIONS[c].get("collection") else COMPANION_SHAPES)
+              if not (s == "companion-of-function" and COMPANIONS[c]["wrap"] is None)]
+    for comp, shape in combos:
+        for b in COMPANIONS[comp]["backends"]:
+            fs = names if ctx.tier == "thorough" else [names[(k + i * 19) % len(names)] for i in range(2)]
+            k += 1
+            for f in fs:
+                e = companion_expr(f, comp, shape)
+                if e is not None:
+                    out.append((b, comp, shape, e, "none"))
+    for _ in range(40 if ctx.tier == "quick" else 600):
+        comp, shape = ctx.rng.choice(combos)
+        e = companion_expr(ctx.rng.choice(names), comp, shape)
+        if e is not None:
+            out.append((ctx.rng.choice(COMPANIONS[comp]["backends"]), comp, shape, e, ctx.rng.choice(COMPANION_INJECTS)))
+    return [c for c in out if not in_defect_exclusion(c[3])]
+
+
+def companion_expectation(ctx, shape: str, comp: str, e) -> Optional[Dict[str, Any]]:
+    per, cols = companion_rows(shape, comp, e)
+    events = [[tuple(s), SECOND_JET] for s in samples_for(e, "quick")]
+    exp: List[Any] = []
+    for jets in events:
+        if per == "event":
+            vf = [robust_value(ctx, e, j, jets) for j in jets]
+            row = [([j[0] for j in jets] if c == "vecpt" else (None if any(v is None for v in vf) else vf)) for c in cols]
+            exp.append([row])
+        else:
+            exp.append([[robust_value(ctx, x, s, jets) for x in cols] for s in jets])
+    return {"events": events, "expected": exp}
+
+
+def judge_companions(ctx, cases: List[Tuple[str, str, str, Any, str]]) -> List[Dict[str, Any]]:
+    for b in BACKENDS:
+        added_includes(b, [])
+    package_of({})  # (the pattern of math calls is built before forking)
+    if len(cases) >= 64:
+        import multiprocessing as mp
+        from concurrent.futures import ProcessPoolExecutor
+
+        try:
+            with ProcessPoolExecutor(max_workers=min(12, os.cpu_count() or 2), mp_context=mp.get_context("fork")) as ex:
+                obs = list(ex.map(_companion_job, cases, chunksize=16))
+        except Exception:
+            obs = [_companion_job(j) for j in cases]
+    else:
+        obs = [_companion_job(j) for j in cases]
+    reqs = []
+    for (b, comp, shape, e, inject), o in zip(cases, obs):
+        mds = INJECT_VARIANTS[inject]
+        pre, post = companion_requests(shape, comp)
+        reqs.append({"op": "package", "expr": to_json(e, BACKENDS[b]["sep"]), "backend": b, "hdrCalls": False, "pre": pre, "post": post,
+                     "injects": [{"header_includes": md.get("header_includes", []), "body_includes": md.get("body_includes", [])} for md in mds]})
+        reqs.append({"op": "pkgspec", "files": o.get("package") or []})
+    ans = ctx.driver(DRIVER, reqs)
+    recs, items = [], []
+    for i, ((b, comp, shape, e, inject), o) in enumerate(zip(cases, obs)):
+        r = {"backend": b, "companion": comp, "shape": shape, "expr": e, "inject": inject, "src": to_src(e), "query": companion_query(b, comp, shape, e, inject)[0],
+             "obs": o, "model": ans[2 * i], "spec": ans[2 * i + 1], "job": None}
+        if "err" not in o and o.get("body") and "bad" not in r["model"] and "err" not in r["model"]:
+            je = companion_expectation(ctx, shape, comp, e)
+            if je:
+                r["job"] = je
+                items.append({"id": i, "backend": b, "body": o["body"], "members": o["members"], "events": je["events"], "incs": o["added"] + o["through_header"]})
+        recs.append(r)
+    if items:
+        got = job_eval_exact(items)
+        ctx.count("g++:companion-methods-compiled-with-exactly-the-added-includes", len(items))
+        ctx.count("g++:companion-translation-units", len({tuple(it["incs"]) for it in items}))
+        for it in items:
+            recs[it["id"]]["job"]["got"] = got.get(it["id"])
+    return recs
+
+
+def companion_why(r) -> Optional[str]:
+    if "err" in r["obs"]:
+        return f"a documented function used together with {r['companion']} ({r['shape']}) was rejected ({r['obs']['err']}: {r['obs'].get('msg')})"
+    why = []
+    if "bad" not in r["spec"] and not r["spec"].get("holds", False):
+        main = next((f for f in r["obs"]["package"] if f["name"] == r["spec"].get("culprit")), None)
+        std = [i for i in (main["incs"] if main else []) if "/" not in i]
+        why.append(f"the rendered {r['spec'].get('culprit')} calls {', '.join(n + '(' for n in r['obs'].get('math_calls', [])) or 'a std:: math function'} but the header that declares "
+                   f"it in namespace std, <cmath>, is not included there nor by a rendered header it includes (it includes {std})")
+    jw = job_why({"job": r["job"], "expr": r["expr"] if COMPANIONS[r["companion"]]["type"] == "double" else ("bin", "Add", r["expr"], ("call", "x", [r["expr"]] * 8))})
+    if jw:
+        why.append(jw.replace("against the mock event model", "with exactly the include files this translation added (math.h: a stand-in that declares nothing in namespace std)"))
+    return "; ".join(why) if why else None
+
+
+def check_companions(ctx, g) -> None:
+    pre = [(c["backend"], c["companion"], c["shape"], _tuplify(c["expr"]), c.get("inject", "none")) for c in vlib.corpus_cases(ID)
+           if c.get("companion") in COMPANIONS and c.get("shape") in COMPANION_SHAPES + COLLECTION_SHAPES]
+    recs = judge_companions(ctx, pre + companion_cases(ctx, g))
+    for r in recs:
+        ctx.count("companion:" + r["companion"])
+        ctx.count("companion-shape:" + r["shape"])
+        ctx.count("companion-inject:" + r["inject"])
+        if "err" in r["obs"]:
+            ctx.count("companion:not-rendered:" + r["obs"]["err"])
+        if r["job"] and isinstance(r["job"].get("got"), dict) and "events" in r["job"]["got"]:
+            ctx.count("g++:companion-cases-evaluated")
+        smp = None
+        if r["companion"] == "DeltaR" and r["shape"] == "function-of-companion" and ctx.dist.get("sampled:companion", 0) < 1 and "err" not in r["obs"] and r["job"] and r["job"].get("got"):
+            ctx.count("sampled:companion")
+            smp = {"backend": r["backend"], "companion": r["companion"], "shape": r["shape"], "query_expression": r["src"], "includes_added_to_the_rendered_main_file_in_order": r["obs"]["added"],
+                   "package_spec_on_rendered_files": r["spec"], "model_include_list": next((f["incs"] for f in r["model"].get("files", []) if f["name"] == BACKENDS[r["backend"]]["main"]), None),
+                   "compiled_with_exactly_those_includes_rows": (r["job"]["got"].get("events") or {}).get(0), "function_of_that_name_rows": r["job"]["expected"][0]}
+        ctx.case({"companion": [r["backend"], r["companion"], r["shape"], r["src"], r["inject"]]}, True, smp)
+        why = companion_why(r)
+        if why:
+            ctx.violation(key=f"companion:{r['backend']}:{r['companion']}:{r['shape']}:{r['inject']}:{r['src']}",
+                          what=f"{r['src']} with {r['companion']} ({r['shape']}) on {r['backend']}, inject_code {r['inject']}: {why}",
+                          case={"backend": r["backend"], "companion": r["companion"], "shape": r["shape"], "expr": r["expr"], "src": r["src"], "inject": r["inject"], "query": r["query"]},
+                          observed={"rendered_cpp_files": r["obs"].get("package"), "added_includes": r["obs"].get("added"), "job": r.get("job")},
+                          how="python: ast.parse(<case.query>, mode='eval').body through <backend>_executor().apply_ast_transformations + write_cpp_files; read the #include lines of "
+                              "query.cxx / Analyzer.cc; or ./check C12 --replay <this file>")
+        if "err" in r["obs"]:
+            if "ok" in r["model"] or "files" in r["model"]:
+                ctx.disagreement("companions: accepted by the model vs by the translator", {"backend": r["backend"], "companion": r["companion"], "shape": r["shape"], "src": r["src"]},
+                                 "accepted", {"refused": r["obs"]["err"]})
+            continue
+        if "bad" in r["model"] or "err" in r["model"]:
+            if "err" in r["model"]:
+                ctx.disagreement("companions: the model refuses an expression the translator renders", {"backend": r["backend"], "src": r["src"]}, r["model"], "rendered")
+            continue
+        # the tie: the include list the model gives the main file (withCompanions: requests in translation order) vs the rendered one
+        mainf = BACKENDS[r["backend"]]["main"]
+        base = _BASELINE_PKG[r["backend"]]
+        seen = {f["name"] for f in r["obs"]["package"]}
+        mf = next(f for f in r["model"]["files"] if f["name"] == mainf)
+        m_added = [i for i in mf["incs"] if i not in base.get(mainf, []) and i not in seen]
+        o_added = [i for i in r["obs"]["added"] if i not in seen]
+        if m_added != o_added:
+            ctx.disagreement("companions: include files added to the rendered main file, in order (withCompanions vs generated_code.add_include + write_cpp_files)",
+                             {"backend": r["backend"], "companion": r["companion"], "shape": r["shape"], "inject": r["inject"], "src": r["src"]}, m_added, o_added)
 
 
 # --------------------------------------------------------------------------------------------
@@ -1561,11 +1874,11 @@ JOB_MOCK = r"""#include <cstdio>
 #include <vector>
 #include <string>
 #include <stdexcept>
-#include <cmath>
-// (which header the translator asks for is judged by the Spec on the include lists, not here)
+%(includes)s
 struct Jet { double a, b, c; int n; float x;
   double pt() const { return a; } double eta() const { return b; } double phi() const { return c; }
-  int nI() const { return n; } float xF() const { return x; } };
+  int nI() const { return n; } float xF() const { return x; }
+  template <class T> T getAttribute(const std::string&) const { return (T) 0.25; } };
 typedef std::vector<const Jet*> PtrColl;
 typedef std::vector<Jet> ValColl;
 namespace xAOD { typedef ::Jet Jet; typedef ::PtrColl JetContainer; }
@@ -1616,7 +1929,33 @@ def job_eval(items: List[Dict[str, Any]], timeout: int = 300) -> Dict[int, Any]:
     return out
 
 
-def _job_eval(items: List[Dict[str, Any]], timeout: int = 300) -> Dict[int, Any]:
+# stand-ins for headers that are not on this machine / must not leak: `math.h` puts nothing into namespace std (the C header
+# declares ::sqrt …, only <cmath> declares std::sqrt; libstdc++'s own math.h wrapper would hide a missing <cmath>)
+JOB_STUBS = {
+    "math.h": "/* stand-in for the C header: nothing in namespace std */\n",
+    "TVector2.h": "struct TVector2 { static double Phi_mpi_pi(double x) { const double pi = 3.14159265358979323846;\n"
+                  "  while (x >= pi) x -= 2 * pi; while (x < -pi) x += 2 * pi; return x; } };\n",
+}
+
+
+def job_eval_exact(items: List[Dict[str, Any]], timeout: int = 300) -> Dict[int, Any]:
+    """the per-event methods compiled with EXACTLY the include files their translation added to the rendered file
+    (item["incs"]), no <cmath> from the mock: one translation unit per distinct include list, four compilers at a time"""
+    groups: Dict[Tuple[str, ...], List[Dict[str, Any]]] = {}
+    for it in items:
+        if it.get("body"):
+            groups.setdefault(tuple(it["incs"]), []).append(it)
+    out: Dict[int, Any] = {}
+    from concurrent.futures import ThreadPoolExecutor
+
+    units = [(list(k), v[i:i + 250]) for k, v in groups.items() for i in range(0, len(v), 250)]
+    with ThreadPoolExecutor(max_workers=4) as ex:
+        for res in ex.map(lambda u: _job_eval(u[1], timeout, u[0]), units):
+            out.update(res)
+    return out
+
+
+def _job_eval(items: List[Dict[str, Any]], timeout: int = 300, exact: Optional[List[str]] = None) -> Dict[int, Any]:
     """items: {"id", "backend", "body", "members": [(type, name)], "events": [[(pt, eta, phi)…]…]} ->
     id -> {"events": {k: [[column values…]…] | "threw"}} | {"compile": msg}.
     The per-event method is compiled as the translator wrote it (its data members become variables of a namespace of
@@ -1642,7 +1981,13 @@ def _job_eval(items: List[Dict[str, Any]], timeout: int = 300) -> Dict[int, Any]
                     flat = ", ".join(repr(float(v)) for j in jets for v in j)
                     calls.append(f"  {{ static const double js[] = {{{flat}}}; set_event(js, {len(jets)}); g_ev = {k}; g_fill = &c12_{i}::fill; "
                                  f"try {{ c12_{i}::event(ev, es); }} catch (const std::exception&) {{ printf(\"THROW {i} {k}\\n\"); }} }}")
-            (d / "t.cc").write_text(JOB_MOCK % {"ni": N_I, "xf": repr(X_F), "cases": "\n".join(cases), "calls": "\n".join(calls)})
+            if exact is None:  # (which header the translator asks for is judged by the Spec on the include lists)
+                includes = "#include <cmath>"
+            else:
+                includes = "\n".join(f'#include "{i}"' for i in exact) or "// the translation added no include file"
+                for nm, txt in JOB_STUBS.items():
+                    (d / nm).write_text(txt)
+            (d / "t.cc").write_text(JOB_MOCK % {"ni": N_I, "xf": repr(X_F), "includes": includes, "cases": "\n".join(cases), "calls": "\n".join(calls)})
             p = subprocess.run(["g++", "-std=c++17", "-O0", "-w", "-o", str(d / "t"), str(d / "t.cc")], capture_output=True, text=True, timeout=timeout)
             if p.returncode != 0:
                 bad = set()
@@ -1650,6 +1995,8 @@ def _job_eval(items: List[Dict[str, Any]], timeout: int = 300) -> Dict[int, Any]
                     cid = int(m.group(1))
                     if cid not in bad:
                         bad.add(cid)
+                        out[cid] = {"compile": m.group(2)[:200]}
+                    elif "std" in m.group(2) and "std" not in out[cid]["compile"]:
                         out[cid] = {"compile": m.group(2)[:200]}
                 if not bad:
                     raise vlib.InternalError("g++ failed outside the generated per-event methods: " + p.stderr[:800])
@@ -1991,10 +2338,12 @@ def run(ctx):
     check_resolver(ctx, g)
     # 3b. the whole rendered package, with and without inject_code metadata
     check_package(ctx, g)
+    # 3b'. … and together with the other sources of include files (built-in / user C++ functions, collections, inject_code)
+    check_companions(ctx, g)
     # 3c. every documented function at every kind of expression position
     check_placements(ctx, g)
     # 4. corpus, then every documented function standalone and inside arithmetic, then random expressions
-    cases = [("corpus", c["backend"], _tuplify(c["expr"])) for c in vlib.corpus_cases(ID) if "inject" not in c and "placement" not in c]
+    cases = [("corpus", c["backend"], _tuplify(c["expr"])) for c in vlib.corpus_cases(ID) if "inject" not in c and "placement" not in c and "companion" not in c]
     for stream, b, e in main_cases(ctx, g):
         ex = in_defect_exclusion(e)
         if ex:
@@ -2111,6 +2460,23 @@ def replay(ctx, rep) -> int:
         why = placement_why(r)
         print("verdict:", why or "holds")
         return 1 if why else 0
+    if "expr" in case and "companion" in case:
+        r = judge_companions(ctx, [(case["backend"], case["companion"], case["shape"], _tuplify(case["expr"]), case.get("inject", "none"))])[0]
+        print("query:", r["query"])
+        print("backend:", r["backend"], " companion:", r["companion"], COMPANIONS[r["companion"]]["incs"], " shape:", r["shape"], " inject_code:", INJECT_VARIANTS[r["inject"]])
+        if "err" in r["obs"]:
+            print("translator:", r["obs"])
+        else:
+            for f in r["obs"]["package"]:
+                print("  rendered", f["name"], "calls a std:: math function:", f["calls"], " includes:", [i for i in f["incs"] if "/" not in i])
+            print("  added to the main file by this translation, in order:", r["obs"]["added"], " through the rendered header:", r["obs"]["through_header"])
+        print("model's package:", r["model"])
+        print("package spec on the rendered files:", r["spec"])
+        if r.get("job"):
+            print("per-event method compiled with exactly the added includes:", r["job"].get("got"), " rows python numerics give:", r["job"]["expected"])
+        why = companion_why(r)
+        print("verdict:", why or "holds")
+        return 1 if why else 0
     if "expr" in case and "inject" in case:
         r = judge_package(ctx, [(case["backend"], case["inject"], _tuplify(case["expr"]))])[0]
         print("query expression:", r["src"], " backend:", r["backend"], " inject_code:", INJECT_VARIANTS[case["inject"]])
@@ -2163,6 +2529,7 @@ THEOREMS = ["FaxVerif.C12." + t for t in [
     "package_spec", "package_spec_discriminates", "package_partial", "computes_namesake_partial", "spec_partial", "documented_plain_partial", "documented_scoped_partial", "abs_scope_partial", "documented_never_refused", "documented_clean_scoped", "c12_partial",
     "computes_namesake_counterexample_remquo", "computes_namesake_counterexample_abs_int",
     "call_alive", "alive_spec_model", "alive_discriminates_late", "alive_discriminates_stale",
+    "package_companions_partial", "companions_keep_all", "companions_discriminates",
 ]]
 RULE = (
     "(a) every row of functions_to_replace as it is at run time (row Spec: namesake, header, declared type = C++ result type, arithmetic type; each row is a non-trivial case); (b) name "
@@ -2187,7 +2554,14 @@ RULE = (
     "PlacementSpec, by AliveSpec (the line of the per-event method that holds the call mentions only generated variables declared in an enclosing block of THIS method or as "
     "data members) and, for the positions whose rows are predictable (row value, inside arithmetic, inner Select, all event-level positions), by compiling the rendered "
     "per-event method with g++ against a mock event store / collections / tree, running it over mock events (two jets: a sample point of the function's domain and a fixed "
-    "second jet) and comparing every filled row with python numerics. Inputs inside the listed defect classes (remquo; abs-of-integers "
+    "second jet) and comparing every filled row with python numerics; (h) companions: a documented function used TOGETHER with every other source of include files the pipeline has — "
+    "the built-in DeltaR (TVector2.h, math.h) and getAttributeFloat (vector, ATLAS), user add_cpp_function blocks whose include_files are a C spelling (math.h; stdlib.h + math.h), the "
+    "C++ spelling (cmath), unrelated headers, none, and a user-declared event collection whose include_files list math.h — as tuple (function first / companion first), product (both "
+    "orders), function of the companion, companion of the function, collection column before / after the function's column, on every backend the companion exists on (functions rotating "
+    "through the README list; thorough: all), plus random (function, companion, shape, backend, inject_code variant incl. body/header lists with math.h); oracle: PackageSpec on the "
+    "rendered files (every file that calls a std:: math function sees cmath — math.h does not count — directly or through a rendered header), the rendered per-event method compiled "
+    "with EXACTLY the include files the translation added (one translation unit per distinct list; math.h and TVector2.h are stand-ins, math.h declares nothing in namespace std) and "
+    "run over mock events, rows compared; tie: the include list of the model (withCompanions, requests in translation order) equals the rendered one, order included. Inputs inside the listed defect classes (remquo; abs-of-integers "
     "under a division) are produced only by the findings stream; the repaired ones (round, ilogb/2, the rounding rows, sin(x)*2) are replayed on every run. A case is non-trivial when it is a documented expression containing at least one "
     "function call; distinct = distinct (backend, expression)."
 )
@@ -2204,6 +2578,8 @@ TRUSTED_BASE = [
     "the cut of the rendered per-event method into lines (method_lines: braces on lines of their own, `for (auto &&v : …)` headers, declarations `T name;|=|(`; a generated "
     "variable is an unqualified identifier ending in digits that is not a member access) and the reading of the class declaration for the data members; the mock event "
     "model of the compiled-job oracle (JOB_MOCK: event store, collections of pointers / values, handles, tokens, tree) and the extraction of the method body by brace matching",
+    "the companion stream's reading of the translation order of include requests (a companion's own before its arguments, a function's after its arguments) — checked by the ordered "
+    "tie on every case; the stand-in headers of the exact-include compilation (math.h empty, TVector2.h with Phi_mpi_pi) and the python references of the companions",
     "ArgShape / columnCode (Lean): a hand model of the block structure visit_function_ast's arguments leave behind, up to the position of declarations inside a block; "
     "tied to the code by AliveSpec evaluated on the rendered method",
     "numerical agreement of libm with python's math module (tolerance 1e-9 relative) and the C definitions used where python has no such function "
@@ -2225,7 +2601,9 @@ LEVEL_TEXT = (
     "read by its documented name; and at package level, for any inject_code include lists, every rendered C++ file of the model's package that calls a math function sees <cmath>; and for every list of "
     "arguments that are constants, values out of a First() or accumulators of Count()/Sum(), the code the model emits for a column whose value is the call keeps every line inside the "
     "blocks that declare the variables it mentions (call_alive), so AliveSpec holds of it; two literals show the clause rejects a call emitted after its First() loop was closed and a "
-    "call that names the loop variable of another translation. Two counterexample theorems (remquo, abs(int)/2) mark where the full statement is false of the code."
+    "call that names the loop variable of another translation; and whatever include requests other constructs of the query make before or after the expression's own (withCompanions), "
+    "cmath stays in the list and every rendered file that calls a math function sees it (package_companions_partial; companions_discriminates: an add_include that took math.h and cmath for "
+    "one path fails the clause in the companion-first order only). Two counterexample theorems (remquo, abs(int)/2) mark where the full statement is false of the code."
 )
 LEVEL_NOTE = (
     "Theorem: table facts (all rows), resolver/emission facts (all expressions), namesake semantics for expressions with int/double operands, + - * / **, unary + -, and "
